@@ -1,5 +1,6 @@
 """Python side of E1: plans for rtsim, running them, parsing histories,
 expected streams (DESIGN §3.1)."""
+import json
 import os
 import shutil
 import struct
@@ -70,7 +71,7 @@ class Plan:
     def render(self):
         lines = []
         for k, v in sorted(self.knobs.items()):
-            if v is None or k in ("symlinks", "stale", "restart_from"):      # prepared by run_plan, not by rtsim
+            if v is None or k in ("symlinks", "stale", "restart_from", "sibling"):      # prepared by run_plan, not by rtsim
                 continue
             lines.append("knob %s %s" % (k, v))
         for i, t in enumerate(self.ops):
@@ -170,6 +171,16 @@ def run_plan(ctx, plan, workdir, variant="real", san="asan", timeout=120):
     if plan.knobs.get("restart_from"):
         # restart in place: the trace directory of an earlier, complete incarnation is what this one starts on
         shutil.copytree(plan.knobs["restart_from"], os.path.join(root, (plan.knobs.get("tracedir") or "ovni").rstrip("/")))
+    if plan.knobs.get("sibling"):
+        # another process of the same loom got there first: its directories exist and hold a complete stream
+        loom, pid, tid = str(plan.knobs["sibling"]).split(":")
+        sd = os.path.join(root, (plan.knobs.get("tracedir") or "ovni").rstrip("/"), "loom." + loom, "proc." + pid, "thread." + tid)
+        os.makedirs(sd)
+        evs = [tf.Ev("OHx", 10 ** 9 + 5, struct.pack("<iiQ", -1, int(tid), 0)), tf.Ev("OB.", 10 ** 9 + 6), tf.Ev("OHe", 10 ** 9 + 7)]
+        with open(os.path.join(sd, "stream.obs"), "wb") as f:
+            f.write(tf.HEADER + b"".join(e.encode() for e in evs))
+        with open(os.path.join(sd, "stream.json"), "w") as f:
+            json.dump(tf.base_meta(loom, int(pid), int(tid), app_id=2), f)
     for spec in filter(None, str(plan.knobs.get("stale") or "").split(",")):
         # what an earlier incarnation of the same program (same loom, PID and TIDs: a container, a batch job restarted
         # in place) left behind: <thread directory relative to the root>:<number of old events>
